@@ -36,6 +36,19 @@ func newDomainRoutingTracker() *domainRoutingTracker {
 	}
 }
 
+// reset forgets everything the tracker believes the kernel table holds. It must be
+// called whenever domain_routing_map is emptied behind the tracker's back; otherwise
+// syncOwner sees no difference for the entries replayed afterwards and writes nothing.
+func (t *domainRoutingTracker) reset() {
+	if t == nil {
+		return
+	}
+	t.mu.Lock()
+	defer t.mu.Unlock()
+	t.owners = make(map[string]domainRoutingOwnerSnapshot)
+	t.ips = make(map[[4]uint32]*domainRoutingIPState)
+}
+
 func cloneDomainRoutingIPSet(src map[[4]uint32]struct{}) map[[4]uint32]struct{} {
 	if len(src) == 0 {
 		return nil
